@@ -1,7 +1,10 @@
 #!/venv/bin/python
 """Markdown tables for DESIGN.md from the seeded corpus: tools/design_tables.py <round>"""
 import json, sys, glob
-rnd = int(sys.argv[1])
+if sys.argv[1] == "pairs":
+    rnd = -1
+else:
+    rnd = int(sys.argv[1])
 rows = []
 for m in sorted(glob.glob("/verif/seeded/*/meta.json")):
     d = json.load(open(m))
@@ -21,3 +24,25 @@ if eq:
     print(f"rewrites of round {rnd}: {len(eq)}; first pass non-zero in {sum(1 for d in eq if d.get('nonzero_first_pass'))}, "
           f"false VIOLATION in {sum(1 for d in eq if d.get('violations_first_pass'))}; final non-zero: "
           + (", ".join(f"{d['id']} ({'/'.join(d['nonzero_final'])})" for d in eq if d.get("nonzero_final")) or "none"))
+
+
+def pairs_table(rnd):
+    """table of a round of minimal pairs (rounds 6, 7): tools/design_tables.py pairs <round>"""
+    rows = []
+    for m in sorted(glob.glob("/verif/seeded/*/meta.json")):
+        d = json.load(open(m))
+        if d.get("round") != rnd or "twin" not in d:
+            continue
+        t = json.load(open(f"/verif/seeded_equiv/{d['twin']}/meta.json"))
+        now = ", ".join(d["detected_by"]) or ("not reported (exit 2 in " + "/".join(d["analysis_error_in"]) + ")" if d["analysis_error_in"] else "not reported (silent)")
+        before = ", ".join(d["detected_before_strengthening"]) or ("exit 2" if d["analysis_error_before_strengthening"] else "silent")
+        tw_first = "FALSE VIOLATION " + "/".join(t["violations_first_pass"]) if t["violations_first_pass"] else ("exit 2" if t["nonzero_first_pass"] else "silent")
+        tw_now = "silent" if not t["nonzero_final"] else ("FALSE VIOLATION " + "/".join(t["violations_final"]) if t.get("violations_final") else "exit 2 in " + "/".join(t["analysis_error_final"]))
+        s_ = d["summary"].replace("\n", " ").replace("|", "/")[:120]
+        rows.append(f"| {d['id']} / {t['id']} | {s_}… | {before} | {now} | {tw_first} | {tw_now} |")
+    print("| pair (breaking / twin) | breaking change (agent's summary) | breaking: first pass | breaking: now | twin: first pass | twin: now |\n|---|---|---|---|---|---|")
+    print("\n".join(rows))
+
+
+if len(sys.argv) > 2 and sys.argv[1] == "pairs":
+    pairs_table(int(sys.argv[2]))
